@@ -31,7 +31,7 @@ func init() {
 		Run: ruleCompletionCloses,
 	})
 	register(&Rule{
-		Name: "emitters-address-stream", Props: []string{"C01", "C14", "C09", "C02"}, Engine: "AST", Floor: 8,
+		Name: "emitters-address-stream", Props: []string{"C01", "C14", "C09", "C02"}, Engine: "AST", Floor: 9,
 		Doc: "every function that builds a stream-level frame (DATA, HEADERS, RST_STREAM, stream WINDOW_UPDATE) sets the frame header's stream id from its stream argument before queuing it, and connection-level frames (SETTINGS, PING, GOAWAY) do not set one",
 		Run: ruleEmittersAddressStream,
 	})
@@ -497,6 +497,7 @@ func ruleEmittersAddressStream(p *Prog, r *Out) {
 		{"(*serverConn).handleSettings", "", 4, "fr"},
 		{"(*Conn).updateWindow", "streamID", 8, "fr"},
 		{"(*Conn).cancelStream", "id", 3, "h"},
+		{"(*Conn).resetStreamNow", "id", 3, "h"},
 		{"(*Conn).writeData", "id", 0, "fh"},
 		{"(*Conn).writeRequest", "id", 1, "fr"},
 	}
@@ -1307,7 +1308,7 @@ func ruleResponseStatusOnce(p *Prog, r *Out) {
 
 func init() {
 	register(&Rule{
-		Name: "emitter-payloads", Props: []string{"C14", "C09", "C10", "C18", "C05"}, Engine: "AST", Floor: 11,
+		Name: "emitter-payloads", Props: []string{"C14", "C09", "C10", "C18", "C05"}, Engine: "AST", Floor: 12,
 		Doc: "every function that emits a control frame fills the payload from its arguments, attaches it to the frame header and queues the header: WINDOW_UPDATE carries the increment it was asked for, RST_STREAM and GOAWAY their code (GOAWAY also the stream and message), a PING answer has ACK set and echoes the received data, a SETTINGS acknowledgement has ACK set",
 		Run: ruleEmitterPayloads,
 	})
@@ -1333,6 +1334,7 @@ func ruleEmitterPayloads(p *Prog, r *Out) {
 		{"(*serverConn).writePing", []need{{"(*FrameHeader).SetBody", "ping"}}, "(*serverConn).write"},
 		{"(*Conn).updateWindow", []need{{"(*WindowUpdate).SetIncrement", "size"}, {"(*FrameHeader).SetBody", "wu"}}, "(*Conn).writeOut"},
 		{"(*Conn).cancelStream", []need{{"(*RstStream).SetCode", "code"}, {"(*FrameHeader).SetBody", "fr"}}, "(*Conn).writeOut"},
+		{"(*Conn).resetStreamNow", []need{{"(*RstStream).SetCode", "code"}, {"(*FrameHeader).SetBody", "fr"}}, "(*Conn).writeFrame"},
 		{"(*Conn).handlePing", []need{{"(*Ping).SetAck", "true"}, {"(*Ping).SetData", "ping.Data()"}, {"(*FrameHeader).SetBody", "ack"}}, "(*Conn).writeOut"},
 		{"(*Conn).handleSettings", []need{{"(*Settings).SetAck", "true"}, {"(*FrameHeader).SetBody", "stRes"}}, "(*Conn).writeOut"},
 		{"(*Conn).writePing", []need{{"(*FrameHeader).SetBody", "ping"}}, "(*FrameHeader).WriteTo"},
@@ -1355,6 +1357,11 @@ func ruleEmitterPayloads(p *Prog, r *Out) {
 			case *ast.AssignStmt:
 				if len(x.Rhs) == 1 {
 					call, _ = x.Rhs[0].(*ast.CallExpr)
+				}
+			case *ast.ReturnStmt:
+				// `return c.writeFrame(h)`: the write is the function's result
+				if len(x.Results) == 1 {
+					call, _ = x.Results[0].(*ast.CallExpr)
 				}
 			}
 			if call == nil {
